@@ -14,6 +14,7 @@
    Only property statements here. *)
 From Coq Require Import List NArith Bool.
 From Lal Require Import Lock.LockOrder Lock.LockMachine Lock.LockOrderProofs Lock.LockProgress Lock.LockFacts.
+From Lal Require Import Lock.PubOrder Lock.PubOrderProofs.
 From Lal Require Import Gen.LockGraph.
 Import ListNotations.
 Open Scope N_scope.
@@ -108,6 +109,56 @@ Print Assumptions c20_guard_classes_covered.
 Theorem c20_lock_sites_resolved : unresolved_lock_sites = 0.
 Proof. reflexivity. Qed.
 Print Assumptions c20_lock_sites_resolved.
+
+(* ---- publication order -------------------------------------------------------- *)
+
+(* general: the boolean check on an abstract construction trace (write f |
+   publish t | call bag) excludes, for every linearisation of the trace, an
+   unsynchronised write of a shared field after a publication that covers the
+   field's owner *)
+Theorem c20_publication_check_sound : forall owner shared covers exempt tr l,
+  lin tr l -> safeb owner shared covers exempt [] tr = true ->
+  ~ races_at owner shared covers exempt [] l.
+Proof. intros owner shared covers exempt tr l Hl Hs. exact (safeb_sound owner shared covers exempt tr l Hl [] Hs). Qed.
+Print Assumptions c20_publication_check_sound.
+
+(* instance: the traces the translator extracted from the construction paths
+   of lal's sessions and connections (rtmp / rtsp / http-flv / http-ts / hls /
+   gb28181 sessions, pull and push sessions, naza connections) *)
+Definition pub_owner (f : N) : N := assoc_default pub_field_owner f 0.
+Definition pub_sharedb (t f : N) : bool := mem_pair pub_shared t f.
+Definition pub_coversb (t t' : N) : bool := mem_pair pub_covers t t'.
+Definition pub_exemptb (t f : N) : bool := mem_pair pub_exempt t f.
+
+Theorem c20_publication_order :
+  forallb (safeb pub_owner pub_sharedb pub_coversb pub_exemptb []) pub_traces = true.
+Proof. vm_compute. reflexivity. Qed.
+Print Assumptions c20_publication_order.
+
+Theorem c20_publication_no_race : forall tr l,
+  In tr pub_traces -> lin tr l -> ~ races_at pub_owner pub_sharedb pub_coversb pub_exemptb [] l.
+Proof.
+  intros tr l Hin Hl. apply (safeb_sound pub_owner pub_sharedb pub_coversb pub_exemptb tr l Hl []).
+  pose proof c20_publication_order as H. rewrite forallb_forall in H. exact (H tr Hin).
+Qed.
+Print Assumptions c20_publication_no_race.
+
+(* the same property as decided by the translator's context-sensitive walk, which carries the
+   set of published types through calls, returns and loops (order across activations) *)
+Theorem c20_publication_walk : pub_walk_violations = 0.
+Proof. reflexivity. Qed.
+Print Assumptions c20_publication_walk.
+
+(* the order matters: publish-then-write is rejected and has a racing linearisation *)
+Theorem c20_publication_refuted :
+  safeb (fun _ => 0) (fun _ _ => true) (fun _ _ => true) (fun _ _ => false) [] [PPub 0; PWr 0] = false /\
+  exists l, lin [PPub 0; PWr 0] l /\ races_at (fun _ => 0) (fun _ _ => true) (fun _ _ => true) (fun _ _ => false) [] l.
+Proof.
+  split; [reflexivity|].
+  apply (safeb_complete_simple (fun _ => 0) (fun _ _ => true) (fun _ _ => true) (fun _ _ => false)); [|reflexivity].
+  intros e [<-|[<-|[]]]; exact I.
+Qed.
+Print Assumptions c20_publication_refuted.
 
 (* ---- the hypotheses matter -------------------------------------------------- *)
 
